@@ -43,6 +43,15 @@ class Universe:
     return "\n".join(lines), "\n  ".join(cfg)
 
 
+_SUBCLASSES = {}
+
+
+def _subclass(cls):
+  if cls not in _SUBCLASSES:
+    _SUBCLASSES[cls] = type("App" + cls.__name__, (cls,), {})
+  return _SUBCLASSES[cls]
+
+
 class World:
   """Real objects for one universe."""
 
@@ -66,7 +75,9 @@ class World:
       if uni.kinds[k] == "region":
         e = m.Region("r%d" % uni.regid[k], doc)
       else:
-        e = km[uni.kinds[k]](doc)
+        # (every third element is an instance of an application's own subclass of its kind - as ISD.Region is of Region: a
+        # span is a span)
+        e = (_subclass(km[uni.kinds[k]]) if k % 3 == 1 else km[uni.kinds[k]])(doc)
       self.elems.append(e)
     # a document may keep pointing at a body that was detached (or moved) after set_body: replay that order
     for d in range(uni.nd):
